@@ -143,6 +143,21 @@ impl<'a> Gen<'a> {
         for (i, d) in p.asset_denoms.iter().enumerate() { s += &format!(" {} {}", d, p.asset_decimals[i]); }
         let mut fees = p.pool_fees.clone();
         if self.r.chance(1, 25) { fees.swap_fee.share = Decimal::percent(25); }
+        // fee limits at and just beyond the boundary, carried by the EXTRA fees: named fees at exactly 20 % plus a tiny
+        // extra fee; small named fees plus two 10 % extra fees; a single extra fee of 100 % (all to be refused); and the
+        // same shapes just inside the limit (accepted)
+        if self.r.chance(1, 9) {
+            let (pr, sw, bu, ex): (u64, u64, u64, Vec<u128>) = match self.r.below(6) {
+                0 => (10, 7, 3, vec![1_000_000_000_000_000]),                                   // 20 % + 0.1 %
+                1 => (1, 1, 1, vec![100_000_000_000_000_000, 100_000_000_000_000_000]),          // 3 % + 2 x 10 %
+                2 => (1, 1, 0, vec![1_000_000_000_000_000_000]),                                 // an extra fee of 100 %
+                3 => (10, 7, 2, vec![10_000_000_000_000_000]),                                   // exactly 20 % with the extra fee
+                4 => (1, 1, 1, vec![100_000_000_000_000_000, 70_000_000_000_000_000]),           // exactly 20 %
+                _ => (0, 0, 0, vec![200_000_000_000_000_000, 1]),                                // 20 % + one atomic
+            };
+            fees.protocol_fee.share = Decimal::percent(pr); fees.swap_fee.share = Decimal::percent(sw); fees.burn_fee.share = Decimal::percent(bu);
+            fees.extra_fees = ex.into_iter().map(|x| mantra_dex_std::fee::Fee { share: Decimal::raw(x) }).collect();
+        }
         let sender = pick_user(self.r);
         self.emit(format!("tx {} {} pm create {} {} {}", sender, funds_str(&funds), s, fees_str(&fees), id));
     }
@@ -206,6 +221,19 @@ impl<'a> Gen<'a> {
             if n > 2 && self.r.chance(1, 4) { funds.pop(); }
             if funds.is_empty() { funds.push(coin(1000, pi.assets[0].denom.clone())); }
         }
+        // a deposit as large as the pool itself and skewed by a factor s, under a tolerance t around 1 - 1/s: whether it is
+        // within t of the POOL ratio (as it was before the deposit) decides; the deposit moves the ratio a lot
+        let mut forced_tol: Option<String> = None;
+        if !empty && !single && n == 2 && matches!(pi.pool_type, mantra_dex_std::pool_manager::PoolType::ConstantProduct) && self.r.chance(1, 9) {
+            let (r0, r1) = (pi.assets[0].amount.u128(), pi.assets[1].amount.u128());
+            if r0 > 0 && r1 > 0 && r0 < u128::MAX / 16 && r1 < u128::MAX / 16 {
+                let m = 1 + self.r.below(3) as u128;
+                let (sn, sd) = [(2u128, 1u128), (3, 2), (3, 1), (5, 4)][self.r.below(4) as usize];
+                let (a0, a1) = if self.r.chance(1, 2) { (r0 * m * sn / sd, r1 * m) } else { (r0 * m, r1 * m * sn / sd) };
+                funds = vec![coin(a0.max(1), pi.assets[0].denom.clone()), coin(a1.max(1), pi.assets[1].denom.clone())];
+                forced_tol = Some(["400000000000000000", "450000000000000000", "300000000000000000", "350000000000000000", "250000000000000000", "150000000000000000", "500000000000000000"][self.r.below(7) as usize].to_string());
+            }
+        }
         funds.sort_by(|a, b| a.denom.cmp(&b.denom));
         // lock options: none / new generated position / new explicit id / an EXISTING position id
         // (own or somebody else's; existing ids are passed with their prefix, as the farm manager stores them)
@@ -217,9 +245,14 @@ impl<'a> Gen<'a> {
             _ => ("-".to_string(), "-".to_string()),
         };
         let stable = !matches!(pi.pool_type, mantra_dex_std::pool_manager::PoolType::ConstantProduct);
-        let ls = self.liq_slip(stable);
+        let ls = match forced_tol { Some(t) => t, None => self.liq_slip(stable) };
         let ss = self.slip();
-        let recv = self.receiver(sender);
+        let mut recv = self.receiver(sender);
+        // naming an EXISTING position: every other time the receiver is that position's owner (the only receiver for
+        // which the position-belongs-to-receiver test passes; it must still be refused unless the owner is the sender)
+        if lockid.contains('-') && lockid != "-" && self.r.chance(1, 2) {
+            if let Some(q) = self.run.h.all_positions().iter().find(|q| q.identifier == lockid) { recv = self.run.h.w.n(q.receiver.as_str()); }
+        }
         // funds carry canonical denoms (LP denoms never here)
         self.emit(format!("tx {} {} pm provide {} {} {} {} {} {}", sender, funds_str(&funds), pi.pool_identifier, ls, ss, recv, unlock, lockid));
     }
@@ -986,7 +1019,15 @@ impl<'a> Gen<'a> {
                 let funds = self.farm_fee_funds(&asset);
                 let sender = pick_user(self.r);
                 let tag = self.r.below(10_000);
-                self.emit(format!("tx {} {} fm createfarm {} {} {} uusdc {} x{}", sender, funds_str(&funds), lp, cur + 1, cur + 5, aa, tag));
+                // the new farm: on the same LP token under a fresh identifier (the expired farm is swept), or — every other
+                // time — under the expired farm's OWN explicit identifier, on the same or on ANOTHER LP token (where the
+                // expired farm is not swept: the identifier is still taken and the creation must be refused)
+                let (lp2, ident) = if self.r.chance(1, 2) && f.identifier.starts_with("m-") {
+                    let others: Vec<String> = self.run.h.lps.iter().filter(|l| **l != lp).cloned().collect();
+                    let lp2 = if !others.is_empty() && self.r.chance(2, 3) { others[self.r.below(others.len() as u64) as usize].clone() } else { lp.clone() };
+                    (lp2, f.identifier[2..].to_string())
+                } else { (lp.clone(), format!("x{}", tag)) };
+                self.emit(format!("tx {} {} fm createfarm {} {} {} uusdc {} {}", sender, funds_str(&funds), lp2, cur + 1, cur + 5, aa, ident));
             }
             _ => {
                 let owner = self.run.h.w.n(f.owner.as_str());
